@@ -242,6 +242,51 @@ def run_values(spec):
                 got2 = execnet.load(_io.BytesIO(data), py2str_as_py3str=a, py3str_as_py2str=b_)
                 if values.canon(got2) != cwant:
                     res.violation("legacy-coercion-wrong-load-stream", f"settings=({a},{b_}) hex={data.hex()[:120]}")
+    # the switches belong to one load: loads running at the same time with other settings (another thread, a gateway's
+    # receiver) do not influence each other
+    if spec["shard"] % 2 == 0:
+        import sys
+        import threading
+
+        jobs = {}
+        for a in (False, True):
+            for b_ in (False, True):
+                lst = []
+                while len(lst) < 80:
+                    v = gen_legacy(g, rng)
+                    try:
+                        lst.append((codec.encode(v), values.canon(legacy_expected(v, a, b_))))
+                    except (TypeError, UnicodeError):
+                        continue
+                jobs[(a, b_)] = lst
+        wrong: list = []
+        start = threading.Barrier(4)
+
+        def loader(a, b_):
+            start.wait(10)
+            for _round in range(3):
+                for data, cwant in jobs[(a, b_)]:
+                    try:
+                        got = execnet.loads(data, py2str_as_py3str=a, py3str_as_py2str=b_)
+                        if values.canon(got) != cwant:
+                            wrong.append(((a, b_), data.hex()[:80], short(got, 80)))
+                    except BaseException as e:  # noqa
+                        wrong.append(((a, b_), data.hex()[:80], f"{type(e).__name__}: {e}"))
+
+        oldsw = sys.getswitchinterval()
+        sys.setswitchinterval(1e-5)
+        try:
+            ths = [threading.Thread(target=loader, args=k, daemon=True) for k in jobs]
+            for t in ths:
+                t.start()
+            for t in ths:
+                t.join(60)
+        finally:
+            sys.setswitchinterval(oldsw)
+        res.count("concurrent_legacy_loads", 4 * 80 * 3)
+        if wrong:
+            res.violation("legacy-coercion-wrong-under-concurrent-loads",
+                          f"{len(wrong)} loads; first: settings={wrong[0][0]} hex={wrong[0][1]} -> {wrong[0][2]}")
     # defaults of the public API: both switches False
     for v, want in ((codec.Py2Str(b"ab"), b"ab"), (codec.Py2Unicode("ab"), "ab"), ("ab", "ab")):
         got = execnet.loads(codec.encode(v))
